@@ -54,7 +54,7 @@ def execW (expired : Bool) (c : DelayCfg) : List WStmt → WEnv → Handler → 
     match env.derived with
     | some d => execW expired c r env h { st with ctx := d }
     | none => none
-  | .ack :: r, env, h, st => execW expired c r env h { st with acked := true }
+  | .ack :: r, env, h, st => execW expired c r env h (ackMsg st)
   | .waitTick :: r, env, h, st => execW expired c r env h { st with ticks := st.ticks + 1 }
   | .callRet :: _, env, h, st => let (res, st') := h st; some (res, runDefers env st')
   | .callAssign :: r, env, h, st =>
